@@ -79,8 +79,15 @@ func (w *writer) ws() {
 		w.emit("\t")
 		w.feat["tabs"] = true
 	default:
-		w.emit(" \t ")
-		w.feat["tabs"] = true
+		// a form feed is WHITESPACE too (the rule is listed before NEWLINE, so a lone '\f' between two tokens of
+		// one line is a blank, not a line end)
+		if w.pick(3, "ws_ff") == 2 {
+			w.emit("\f")
+			w.feat["form-feed"] = true
+		} else {
+			w.emit(" \t ")
+			w.feat["tabs"] = true
+		}
 	}
 }
 
